@@ -60,3 +60,32 @@ Print Assumptions C20_normalise_unnormalise_inverse.
 Theorem C20_evaluate_preserves_input : gen_currin_writes_through_argument = false.
 Proof. reflexivity. Qed.
 Print Assumptions C20_evaluate_preserves_input.
+
+(* the regenerated nearest-design lookup and ProblemFromDataset.evaluate (Gen_extra.v), for every number of designs and
+   every batch of query points *)
+From VOPy Require ExtraRefine.
+From VOPyGen Require Gen_extra.
+Theorem C20_regenerated_lookup_is_first_argmin : forall xs X k, X <> [] -> (k < length xs)%nat ->
+  let i := nth k (Gen_extra.gen_closest_indices xs X) O in
+  (i < length X)%nat /\
+  (forall j, (j < length X)%nat -> sqdist (nth k xs []) (nth i X []) <= sqdist (nth k xs []) (nth j X [])) /\
+  (forall j, (j < i)%nat -> sqdist (nth k xs []) (nth i X []) < sqdist (nth k xs []) (nth j X [])).
+Proof. exact ExtraRefine.gen_closest_spec. Qed.
+Print Assumptions C20_regenerated_lookup_is_first_argmin.
+
+Theorem C20_regenerated_evaluate_returns_nearest_rows : forall X Y L xs draws, X <> [] -> length Y = length X ->
+  map Some (Gen_extra.gen_pfd_evaluate X Y L xs false draws) = evaluate_noiseless X Y xs /\
+  length (Gen_extra.gen_closest_indices xs X) = length xs.
+Proof.
+  intros X Y L xs draws HX HY. split.
+  - exact (ExtraRefine.gen_pfd_evaluate_noiseless X Y L xs draws HX HY).
+  - exact (ExtraRefine.gen_closest_length xs X HX).
+Qed.
+Print Assumptions C20_regenerated_evaluate_returns_nearest_rows.
+
+Theorem C20_regenerated_noisy_evaluate_adds_the_noise_map_row_by_row : forall X Y L xs draws k, X <> [] ->
+  length draws = length xs -> (k < length xs)%nat ->
+  nth k (Gen_extra.gen_pfd_evaluate X Y L xs true draws) [] =
+  noisy_row L (nth k (Gen_extra.gen_pfd_evaluate X Y L xs false draws) []) (nth k draws []).
+Proof. exact ExtraRefine.gen_pfd_evaluate_noisy. Qed.
+Print Assumptions C20_regenerated_noisy_evaluate_adds_the_noise_map_row_by_row.
